@@ -1057,6 +1057,10 @@ func buildResObj(params map[string]any, parentKeys []string, key string, schema 
 		if additPropsSchema != nil {
 			// dynamic creation of possibly nested objects
 			for k := range objectParams {
+				if _, declared := schema.Value.Properties[k]; declared {
+					// decoded above, by the property's own schema
+					continue
+				}
 				r, err := buildResObj(params, mapKeys, k, additPropsSchema)
 				if err != nil {
 					return nil, err
